@@ -14,7 +14,9 @@ import (
 	"strings"
 
 	"github.com/chrislusf/seaweedfs/weed/storage"
+	"github.com/chrislusf/seaweedfs/weed/storage/idx"
 	"github.com/chrislusf/seaweedfs/weed/storage/needle_map"
+	"github.com/willf/bloom"
 	"github.com/chrislusf/seaweedfs/weed/storage/types"
 	"verifharness/hx"
 )
@@ -89,6 +91,38 @@ func packIdx(b []byte, skip int) string {
 	}
 	return fmt.Sprintf("(%s, %s, ([%s]%%N : list N))", hx.N(uint64(len(b))), hx.N(uint64(skip)), strings.Join(xs, "; "))
 }
+
+// bloomAnswers replays, on the same library with the same parameters and the same key order,
+// the filter that newNeedleMapMetricFromIndexFile builds while walking the index backwards,
+// and returns what bf.Test answered for every entry (the model's oracle; a wrong replay shows
+// up as a model/implementation mismatch of the reloaded counters).
+func bloomAnswers(b []byte) string {
+	esz := int(types.NeedleMapEntrySize)
+	n := len(b) / esz
+	bf := bloom.NewWithEstimates(uint(n), 0.001)
+	buf := make([]byte, types.NeedleIdSize)
+	xs := make([]string, 0, n)
+	fp := 0
+	seen := map[types.NeedleId]bool{}
+	for i := n - 1; i >= 0; i-- {
+		key, _, _ := idx.IdxFileEntry(b[i*esz : (i+1)*esz])
+		types.NeedleIdToBytes(buf, key)
+		if !bf.Test(buf) {
+			xs = append(xs, "false")
+			bf.Add(buf)
+		} else {
+			xs = append(xs, "true")
+			if !seen[key] {
+				fp++
+			}
+		}
+		seen[key] = true
+	}
+	bloomFalsePositives += fp
+	return hx.List(xs)
+}
+
+var bloomFalsePositives int
 
 func readFile(p string) []byte {
 	b, err := os.ReadFile(p)
@@ -244,7 +278,13 @@ func runCase(out *hx.Out, ops []op, probe []uint64, kind string, idxSkip int) {
 		canon[i] = canonOp(o)
 		out.Count([]string{"op:put", "op:delete", "op:get"}[o.kind], 1)
 	}
-	term := fmt.Sprintf("{| c_osz := %s; c_batch := %s; c_ops := %s; c_probe := %s; i_cm := %s; i_secs := %s; "+
+	fpBefore := bloomFalsePositives
+	bloomMem := bloomAnswers(memIdxBytes)
+	bloomLdb := bloomAnswers(ldbIdxBytes)
+	if bloomFalsePositives > fpBefore {
+		out.Count("cases-with-bloom-false-positive", 1)
+	}
+	term := fmt.Sprintf("{| c_osz := %s; c_batch := %s; c_ops := %s; c_probe := %s; c_bloom_mem := "+bloomMem+"; c_bloom_ldb := "+bloomLdb+"; i_cm := %s; i_secs := %s; "+
 		"i_mem_gets := %s; i_mem_met := %s; i_mem_idx := %s; i_mem_look := %s; i_mem_met2 := %s; i_mem_look2 := %s; "+
 		"i_ldb_gets := %s; i_ldb_met := %s; i_ldb_idx := %s; i_ldb_look := %s; i_ldb_met2 := %s; i_ldb_look2 := %s; "+
 		"i_sf_met := %s; i_sf_look := %s |}",
